@@ -40,6 +40,8 @@ def run_case(c):
     viol = []
     obs = {"base_scenarios": 1}
     base = record.run_solver(scn, listener=False)
+    if base.fp_exhausted:
+        return {"violations": [], "obs": {"fp_domain_exhausted": 1}, "skip": "fp-domain-exhausted"}
     T = len([e for e in base.log if e["ph"] == "g"])
     if base.swallowed or base.aborted:
         viol.append({"mech": "solve-internal-exception", "msg": "fault-free base run: Solve printed 'Exception was thrown'", "stdout": base.stdout[-300:]})
